@@ -7,7 +7,7 @@ def nontrivial(se):
 
 
 def run(res):
-    brokercheck.run(res, "C10", "Props/C10.v", monitors.monitor_c10, nontrivial=nontrivial, focus="handshake", racy=False)
+    brokercheck.run(res, "C10", ["Props/C10.v", "Props/C10_history.v"], monitors.monitor_c10, nontrivial=nontrivial, focus="handshake", racy=False)
 
 
 def replay(path):
